@@ -256,7 +256,7 @@ def main(prog: Union[str, None] = None) -> None:
         # No datafile give, and not starting in server mode.
         sys.stderr.write('Input Error. No DataGraph file or endpoint supplied.\n')
         parser.print_usage(sys.stderr)
-        sys.exit(1)
+        sys.exit(2)
     validator_kwargs = {'debug': args.debug}
     data_file = None
     data_graph: Union[BufferedReader, str]
@@ -264,7 +264,7 @@ def main(prog: Union[str, None] = None) -> None:
         endpoint = str(args.data).strip()
         if not endpoint.lower().startswith("http:") and not endpoint.lower().startswith("https:"):
             sys.stderr.write("Input Error. SPARQL Endpoint must start with http:// or https://.\n")
-            sys.exit(1)
+            sys.exit(2)
         data_graph = endpoint
         validator_kwargs['sparql_mode'] = True
     else:
@@ -272,10 +272,10 @@ def main(prog: Union[str, None] = None) -> None:
             data_file = open(args.data, 'rb')
         except FileNotFoundError:
             sys.stderr.write('Input Error. DataGraph file not found.\n')
-            sys.exit(1)
+            sys.exit(2)
         except PermissionError:
             sys.stderr.write('Input Error. DataGraph file not readable.\n')
-            sys.exit(1)
+            sys.exit(2)
         else:
             # NOTE: This cast is not necessary in Python >= 3.10.
             data_graph = cast(BufferedReader, data_file)
@@ -364,6 +364,16 @@ def main(prog: Union[str, None] = None) -> None:
         sys.stderr.write(
             "\n\nValidator encountered a Runtime Error. Please report this to the PySHACL issue tracker.\n"
         )
+        exit_code = 2
+    except Exception as e:
+        # anything else (an unreadable or unparsable input file, an unexpected error) is an error too;
+        # left uncaught it would end the process with status 1, which means "non-conformant"
+        import traceback
+
+        traceback.print_tb(e.__traceback__)
+        sys.stderr.write("\n\nValidator encountered an unexpected error:\n")
+        sys.stderr.write(repr(e))
+        sys.stderr.write("\n")
         exit_code = 2
     finally:
         if data_file is not None:
